@@ -58,6 +58,11 @@ extern int mpt_parse_data(const MPT_STRUCT(parser_format) *fmt, MPT_STRUCT(parse
 		last = curr;
 	}
 	
+	/* read error or no memory for the next character: not the end of the data */
+	if (curr < 0 && curr != -2) {
+		parse->curr = MPT_PARSEFLAG(Data);
+		return MPT_ERROR(BadArgument);
+	}
 	if (fmt->oend && curr != fmt->oend) {
 		parse->curr = MPT_PARSEFLAG(Data);
 		return MPT_ERROR(BadValue);
